@@ -47,7 +47,7 @@ def run(prop, tier, seed, replay):
     from yaw import AngularCoordinates, Catalog
     from yaw.catalog.readers import new_filereader
 
-    ck = Check(prop, tier, seed, kernels=["k_reader"], theorems=THEOREMS, lean_modules=["YawVerif.Props.C18"], rule=RULE,
+    ck = Check(prop, tier, seed, kernels=["k_reader", "k_createplan"], theorems=THEOREMS + ["Yaw.C18P.steps_spec", "Yaw.C18P.passes_spec", "Yaw.C18P.reader_forwarding", "Yaw.C18P.mode_args", "Yaw.C18P.writer_forwarding", "Yaw.C18P.glue_pinned"], lean_modules=["YawVerif.Props.C18", "YawVerif.Props.C18Plan"], rule=RULE,
                assumptions=["pandas slicing returns the requested rows; memory-mapped file access below the reader is not observed"])
     ck.translate()
     ck.lean_check()
